@@ -135,10 +135,15 @@ fn run(case: &Case, w: &Window, sched: bool) -> RunResult {
             arena: None,
         })
     };
-    match &case.subject {
+    // a panic while building the inputs (layout asserts of alloc functions) makes the shape inadmissible
+    let r = crate::util::catch(|| match &case.subject {
         Subject::Core { op, shape } => b.core_op(op, shape, w),
         Subject::Eval(s) => b.eval(s, w, cfg(if sched { Strategy::Random(300) } else { Strategy::Serial })),
         Subject::Prep(s) => b.prep(s, w, cfg(if sched { Strategy::Random(300) } else { Strategy::Serial })),
+    });
+    match r {
+        Ok(x) => x,
+        Err(p) => (Err(format!("setup: {p}")), None),
     }
 }
 
